@@ -82,7 +82,7 @@ def _prune_cache(keep):
     base = os.path.join(CACHE, "impl")
     ents = [os.path.join(base, e) for e in os.listdir(base) if os.path.isdir(os.path.join(base, e))]
     ents.sort(key=lambda p: os.path.getmtime(p), reverse=True)
-    for p in ents[3:]:
+    for p in ents[int(os.environ.get("VERIF_CACHE_KEEP", "6")):]:
         if os.path.basename(p) != keep:
             shutil.rmtree(p, ignore_errors=True)
 
